@@ -403,6 +403,69 @@ func (s *sim) applyBodyOp(op *OpM, tb *hclwrite.Body, mb *mBody) {
 		for i := range toks {
 			toks[i] = &hclwrite.Token{Type: hclsyntax.TokenIdent, Bytes: []byte("callers_reused_slot")}
 		}
+	case "rename_prefix":
+		// Expression.RenameVariablePrefix on an attribute whose expression the
+		// model knows structurally (set by traversal or by value); on parsed
+		// and raw-token expressions the operation is not generated (the model
+		// would have to re-derive their tokens).
+		a, _ := mb.attr(op.Name)
+		if a == nil || (a.kind != expTrav && a.kind != expValue) {
+			return
+		}
+		isName := func(st TravStep) bool { return st.Str == nil && st.Num == nil && st.Bool == nil && !st.Null }
+		search := op.Search
+		if a.kind == expTrav && op.Mode > 0 {
+			names := []string{a.root}
+			for _, st := range a.trav {
+				if isName(st) {
+					names = append(names, st.Attr)
+				} else if op.Mode == 1 {
+					break
+				}
+			}
+			n := op.K%3 + 1
+			if n > len(names) {
+				n = len(names)
+			}
+			search = names[:n]
+		}
+		if len(search) == 0 {
+			return
+		}
+		pool := []string{"r0", "r1x", "_r2", "ren"}
+		repl := make([]string, len(search))
+		for i := range repl {
+			repl[i] = pool[(op.K+i)%len(pool)]
+		}
+		var ga *hclwrite.Attribute
+		s.call("GetAttribute", func() { ga = tb.GetAttribute(op.Name) })
+		if ga == nil {
+			fail("accessor_mismatch", "GetAttribute(%q) returned nil, model has the attribute", op.Name)
+		}
+		s.call("RenameVariablePrefix", func() { ga.Expr().RenameVariablePrefix(search, repl) })
+		if a.kind == expTrav {
+			a.trav = append([]TravStep{}, a.trav...)
+			lead := []*string{&a.root}
+			for i := range a.trav {
+				if !isName(a.trav[i]) {
+					break
+				}
+				lead = append(lead, &a.trav[i].Attr)
+			}
+			match := len(lead) >= len(search)
+			for i := 0; match && i < len(search); i++ {
+				match = *lead[i] == search[i]
+			}
+			if match {
+				for i := range repl {
+					*lead[i] = repl[i]
+				}
+				s.probe("rename_prefix_matched")
+			} else {
+				s.probe("rename_prefix_no_match")
+			}
+		}
+		s.res.Effective++
 	case "rename":
 		var ok bool
 		s.call("RenameAttribute", func() { ok = tb.RenameAttribute(op.Name, op.Name2) })
